@@ -31,6 +31,9 @@ T(id) == CASE id = 1 -> <<83,69,76,69,67,84,32,36,49,32,65,83,32,118,32,70,82,79
                         \* SELECT 5--3 AS w, $1 AS a FROM dual # x\<LF> WHERE $1 = $1   (5--3 is 5 - -3; the backslash does not join the lines)
            [] id = 13 -> <<83,69,76,69,67,84,32,39,65533,39,32,65,83,32,114,44,32,36,49,32,65,83,32,97,32,70,82,79,77,32,100,117,97,108,32,47,42,32,65533,32,42,47,32,87,72,69,82,69,32,36,49,32,61,32,36,49>>
                         \* SELECT '<U+FFFD>' AS r, $1 AS a FROM dual /* <U+FFFD> */ WHERE $1 = $1   (the replacement character itself, valid UTF-8, in the template)
+           \* a placeholder used again after another one: every occurrence is the argument of its own number
+           [] id = 14 -> <<83,69,76,69,67,84,32,36,49,32,65,83,32,97,44,32,36,50,32,65,83,32,98,44,32,36,49,32,65,83,32,99,32,70,82,79,77,32,100,117,97,108>>      \* SELECT $1 AS a, $2 AS b, $1 AS c FROM dual
+           [] id = 15 -> <<83,69,76,69,67,84,32,36,50,32,65,83,32,98,44,32,36,49,32,65,83,32,97,44,32,36,50,32,65,83,32,99,44,32,36,49,32,65,83,32,100,32,70,82,79,77,32,100,117,97,108>>      \* SELECT $2 AS b, $1 AS a, $2 AS c, $1 AS d FROM dual
            \* templates that leave the lexer in the middle of something (used as the earlier call of a history)
            [] id = 20 -> <<83,69,76,69,67,84,32,49,32,47,42,32,107,101,121,115,58,32,117,115,101,114,47,42,32,97,110,100,32,103,114,111,117,112,47,42,32,42,47,32,70,82,79,77,32,100,117,97,108>>
            [] id = 21 -> <<83,69,76,69,67,84,32,49,32,47,42,32,47,42>>
@@ -39,7 +42,7 @@ T(id) == CASE id = 1 -> <<83,69,76,69,67,84,32,36,49,32,65,83,32,118,32,70,82,79
            [] id = 24 -> <<83,69,76,69,67,84,32,49,32,45,45,32,36,49>>
            [] id = 25 -> <<83,69,76,69,67,84,32,69,39,97,92>>
            [] OTHER  -> <<83,69,76,69,67,84,32,36,48,32,70,82,79,77,32,100,117,97,108>>                                                    \* SELECT $0 FROM dual
-NArgs(id) == CASE id \in {3, 5} -> 2 [] OTHER -> 1
+NArgs(id) == CASE id \in {3, 5, 14, 15} -> 2 [] OTHER -> 1
 
 Strs == UNION {[1..n -> Alphabet] : n \in 0..MaxLen}
 Str(c) == [t |-> "s", c |-> c]
